@@ -27,7 +27,8 @@ CheckNego(line, ev) ==
       best == BestSet(ev.produces, reg, ev.acc)
       cts  == SeqToSet(ev.cts)
   IN /\ IF ev.panic THEN Mis(line, "C05.total", <<ev.acc>>) ELSE TRUE
-     /\ ev.ran = 1 /\ ~ev.panic =>
+     \* (a route none of whose Produces entries has a registered writer cannot be served at all: only C05.total)
+     /\ ev.ran = 1 /\ ~ev.panic /\ SeqToSet(ev.produces) \cap reg # {} =>
           /\ Bump(2)
           /\ IF 406 \in SeqToSet(ev.sts) THEN Mis(line, "C05.no406", ev.sts) ELSE TRUE
           /\ IF Cardinality(cts) <= 1 /\ Len(ev.sts) <= 1 THEN TRUE ELSE Mis(line, "C05.deterministic", ev.cts)
